@@ -548,14 +548,26 @@ func c12Closing(k int) func() {
 	}
 }
 
+// c12Cases counts the group events sent / cEMI messages injected in one execution.
+func c12Cases(tr *mc.Trace) int64 {
+	var n int64
+	for _, e := range tr.Log {
+		switch e.V.(type) {
+		case GEvOut, GInj:
+			n++
+		}
+	}
+	return n
+}
+
 func init() {
 	big := mc.Config{MaxSteps: 5000000}
-	register("both", &h.Scenario{Name: "C12-outbound-tunnel-3cmd-x-len0..254-x-firstoctets", Prop: "C12", P: 0, F: 0, D: -1, Cfg: big, Run: c12Out(true), Check: c12OutOracle(true)})
-	register("both", &h.Scenario{Name: "C12-outbound-router-3cmd-x-len0..254-x-firstoctets", Prop: "C12", P: 0, F: 0, D: -1, Cfg: big, Run: c12Out(false), Check: c12OutOracle(false)})
-	register("both", &h.Scenario{Name: "C12-inbound-tunnel-kinds-x-addrtype-x-apci-x-len", Prop: "C12", P: 0, F: 0, D: -1, Cfg: big, Run: c12Inbound(true), Check: c12InOracle})
-	register("both", &h.Scenario{Name: "C12-inbound-router-kinds-x-addrtype-x-apci-x-len", Prop: "C12", P: 0, F: 0, D: -1, Cfg: big, Run: c12Inbound(false), Check: c12InOracle})
-	register("both", &h.Scenario{Name: "C12-end-to-end-router", Prop: "C12", P: 0, F: 0, D: -1, Cfg: big, Run: c12EndToEnd(false), Check: c12E2EOracle})
-	register("both", &h.Scenario{Name: "C12-end-to-end-tunnel", Prop: "C12", P: 0, F: 0, D: -1, Cfg: big, Run: c12EndToEnd(true), Check: c12E2EOracle})
+	register("both", &h.Scenario{Name: "C12-outbound-tunnel-3cmd-x-len0..254-x-firstoctets", Prop: "C12", P: 0, F: 0, D: -1, Cfg: big, Cases: c12Cases, Run: c12Out(true), Check: c12OutOracle(true)})
+	register("both", &h.Scenario{Name: "C12-outbound-router-3cmd-x-len0..254-x-firstoctets", Prop: "C12", P: 0, F: 0, D: -1, Cfg: big, Cases: c12Cases, Run: c12Out(false), Check: c12OutOracle(false)})
+	register("both", &h.Scenario{Name: "C12-inbound-tunnel-kinds-x-addrtype-x-apci-x-len", Prop: "C12", P: 0, F: 0, D: -1, Cfg: big, Cases: c12Cases, Run: c12Inbound(true), Check: c12InOracle})
+	register("both", &h.Scenario{Name: "C12-inbound-router-kinds-x-addrtype-x-apci-x-len", Prop: "C12", P: 0, F: 0, D: -1, Cfg: big, Cases: c12Cases, Run: c12Inbound(false), Check: c12InOracle})
+	register("both", &h.Scenario{Name: "C12-end-to-end-router", Prop: "C12", P: 0, F: 0, D: -1, Cfg: big, Cases: c12Cases, Run: c12EndToEnd(false), Check: c12E2EOracle})
+	register("both", &h.Scenario{Name: "C12-end-to-end-tunnel", Prop: "C12", P: 0, F: 0, D: -1, Cfg: big, Cases: c12Cases, Run: c12EndToEnd(true), Check: c12E2EOracle})
 	register("both", &h.Scenario{Name: "C12-closing-3msgs-P2", Prop: "C12", P: 2, F: 0, D: 3, Run: c12Closing(3), Check: c12InOracle})
 	register("thorough", &h.Scenario{Name: "C12-closing-4msgs-P3", Prop: "C12", P: 3, F: 0, D: 0, Run: c12Closing(4), Check: c12InOracle})
 }
